@@ -17,7 +17,6 @@ Section DsaSel.
   Variable d : dcop.
   Variables stop variant prob : Z.
   Variable fo_vc : bool.
-  Variable orc : node -> list Z.
   Hypothesis Hdom : forall n, dom_of d n <> [].
 
   Definition dsaJ (n : node) (s : M_Dsa.dst) : Prop :=
@@ -143,7 +142,6 @@ Section DsaSel.
     - inversion H; subst; clear H. split; [exact HJ|repeat constructor].
   Qed.
 End DsaSel.
-About dsa_start_ok.
 
 Theorem dsa_selects_in_domain : forall d stop variant prob fo_vc orc sched,
   (forall n, dom_of d n <> []) ->
@@ -173,3 +171,241 @@ Proof.
   - intros n v Hv.
     exact (net_inv_state _ (dsaJ d) (fun _ _ _ => True) (dsaPev d) Hinit Hstart Hrecv sched n v Hv).
 Qed.
+
+(* ====================================================================== DBA
+   Selections: on_start picks in the domain; _send_ok moves to _new_value when _can_move holds.
+   _new_value is always None or a member of the domain (it is drawn from the best values found by
+   _compute_best_improvement, a sub-list of the domain), so current_value is always None or in the
+   domain.  But [improve] sets _can_move := True BEFORE random.choice(best_values) and that call
+   raises IndexError when no value evaluates at or below [infinity] (EvRaise n 1 in the model): the
+   computation is left with _can_move = True and a stale _new_value, possibly the initial None.  If
+   it is then in 'improve' mode (the raise happened while replaying postponed ok messages) and
+   receives its neighbours' improve messages, _send_ok runs value_selection(None, ...): the model
+   records EvSelect n (oz None) = EvSelect n 0 and current_value := None.  0 need not be in the
+   domain: [dba_selects_in_domain_refuted] is such a run.  (The witness needs two dba_ok of the same
+   sender postponed while the node is in improve mode; the instance used has a neighbourhood
+   function [ncs] that is NOT the one derived from the constraints, i.e. [wf_problem] fails.  On a
+   well-formed instance a neighbour cannot get two phases ahead, so I believe the bad state is
+   unreachable there, but that needs a cross-node invariant on the channels and is not proved.)
+   What holds for EVERY instance, parameter, oracle and schedule: [dba_selects_in_domain_partial]. *)
+From PyDcop Require Import M_Dba P_Dba.
+
+Section DbaSel.
+  Variable cs : list M_Dba.constr.
+  Variable ncs : node -> list nat.
+  Variable dom : node -> list Z.
+  Variable infinity maxd : Z.
+
+  Notation do_improve := (M_Dba.do_improve cs ncs dom infinity).
+  Notation send_ok := (M_Dba.send_ok cs ncs maxd).
+  Notation ok_step := (M_Dba.ok_step cs ncs dom infinity).
+  Notation imp_step := (M_Dba.imp_step cs ncs maxd).
+  Notation go_ok := (M_Dba.go_ok cs ncs dom infinity).
+  Notation go_imp := (M_Dba.go_imp cs ncs maxd).
+  Notation dba_recv := (M_Dba.dba_recv cs ncs dom infinity maxd).
+  Notation dba_start := (M_Dba.dba_start cs ncs dom infinity).
+  Notation res := (M_Dba.dst * list (node * dmsg) * list dev * bool)%type.
+
+  Definition vin (n : node) (o : option Z) : Prop := forall v, o = Some v -> In v (dom n).
+  (* always true: current_value and _new_value are None or in the domain *)
+  Definition selW (n : node) (s : M_Dba.dst) : Prop := vin n (d_value s) /\ vin n (d_new s).
+  (* true as long as the computation has not raised IndexError *)
+  Definition selI (s : M_Dba.dst) : Prop := d_can s = true -> d_new s <> None.
+  Definition selPev (e : dev) : Prop :=
+    match e with EvSelect m v _ _ => In v (dom m) | _ => True end.
+
+  Lemma best_imp_incl f : forall vals bests best b' be',
+    best_imp f vals bests best = (b', be') -> forall x, In x b' -> In x bests \/ In x vals.
+  Proof.
+    induction vals as [|a r IH]; simpl; intros bests best b' be' H x Hx.
+    - inversion H; subst; auto.
+    - destruct (f a <? best).
+      + destruct (IH _ _ _ _ H x Hx) as [[<-|[]]|]; auto.
+      + destruct (f a =? best).
+        * destruct (IH _ _ _ _ H x Hx) as [Hb|]; auto.
+          apply in_app_or in Hb as [|[<-|[]]]; auto.
+        * destruct (IH _ _ _ _ H x Hx); auto.
+  Qed.
+
+  Lemma pick_In o l v o' : pick o l = (Some v, o') -> In v l.
+  Proof.
+    unfold pick. destruct l as [|a r]; [discriminate|]. set (l := a :: r).
+    destruct o as [|k o1]; intros H;
+      match type of H with (?X, _) = _ => assert (H1 : X = Some v) by congruence end;
+      apply nth_error_In in H1; exact H1.
+  Qed.
+
+  Lemma do_improve_sel n s : selW n s ->
+    let '(s2, o2, raised) := do_improve n s in selW n s2 /\ (raised = false -> selI s2).
+  Proof.
+    intros [Wv Wn]. unfold M_Dba.do_improve.
+    destruct (eval_at cs ncs infinity n s (oz (d_value s))) as [ce viol].
+    destruct (best_imp _ (dom n) [] infinity) as [bests be] eqn:Eb.
+    destruct (0 <? ce - be).
+    - destruct (pick (d_orc s) bests) as [[nv|] o] eqn:Ep.
+      + split; [split; [exact Wv|]|].
+        * intros w Hw. simpl in Hw. inversion Hw; subst.
+          apply pick_In in Ep. destruct (best_imp_incl _ _ _ _ _ _ Eb _ Ep) as [[]|]; auto.
+        * intros _ _. simpl. discriminate.
+      + split; [split; [exact Wv|exact Wn]|discriminate].
+    - split; [split; [exact Wv|exact Wn]|]. intros _ H. simpl in H. discriminate.
+  Qed.
+
+  Lemma imp_core_sel n s src m :
+    d_value (imp_core n s src m) = d_value s /\ d_new (imp_core n s src m) = d_new s
+    /\ (d_can (imp_core n s src m) = true -> d_can s = true).
+  Proof.
+    destruct m as [[mi me] mtc]. simpl. repeat split.
+    destruct (d_imp s <? mi); [discriminate|]. destruct ((mi =? d_imp s) && (src <? n)); [discriminate|auto].
+  Qed.
+
+  Lemma send_ok_sel n s : selW n s ->
+    let '(s2, o2, e2) := send_ok n s in
+    selW n s2 /\ d_can s2 = d_can s /\ d_new s2 = d_new s /\ (selI s -> Forall selPev e2).
+  Proof.
+    intros [Wv Wn]. unfold M_Dba.send_ok.
+    destruct ((match d_cons s with Some true => true | _ => false end)
+              && ((if match d_cons s with Some true => true | _ => false end then d_tc s + 1 else d_tc s) =? maxd)).
+    - split; [split; [exact Wv|exact Wn]|]. repeat split. intros _. repeat constructor.
+    - split; [split; [|exact Wn]|].
+      + simpl. destruct (d_can s); auto.
+      + repeat split. intros HI. constructor; [exact I|].
+        destruct (d_can s) eqn:Ec; simpl; [|constructor].
+        destruct (negb _); constructor; [|constructor]. simpl.
+        specialize (HI eq_refl). destruct (d_new s) as [v|] eqn:En; [|congruence].
+        simpl. apply Wn. reflexivity.
+  Qed.
+
+  (* result of a nested handler started from a state satisfying selW; [pre] = selI of that state *)
+  Definition okr (n : node) (pre : Prop) (x : res) : Prop :=
+    let '(s', o, e, r) := x in
+    selW n s' /\ (pre -> Forall selPev e /\ (if r then selI s' \/ In (EvRaise n 1) e else selI s')).
+
+  Lemma replay_sel {M} n (h : M_Dba.dst -> node -> M -> res) :
+    (forall s src m, selW n s -> okr n (selI s) (h s src m)) ->
+    forall l s, selW n s -> okr n (selI s) (replay h s l).
+  Proof.
+    intros Hh. induction l as [|[src m] l IH]; intros s HW; simpl.
+    - split; [exact HW|]. intros HI. split; [constructor|exact HI].
+    - specialize (Hh s src m HW). destruct (h s src m) as [[[s1 o1] e1] r1].
+      destruct Hh as [W1 C1]. destruct r1.
+      + split; auto.
+      + specialize (IH s1 W1). destruct (replay h s1 l) as [[[s2 o2] e2] r2].
+        destruct IH as [W2 C2]. split; [exact W2|].
+        intros HI. destruct (C1 HI) as [P1 I1]. destruct (C2 I1) as [P2 I2].
+        split; [apply Forall_app; auto|].
+        destruct r2; auto. destruct I2; auto. right. apply in_app_iff. auto.
+  Qed.
+
+  Lemma guard_pok_sel n s : selW n s -> okr n (selI s) (guard_pok n s).
+  Proof.
+    intros HW. unfold guard_pok. destruct (d_pok s); (split; [exact HW|]); intros HI;
+      (split; [repeat constructor|auto]).
+  Qed.
+
+  Lemma guard_pimp_sel n s : selW n s -> okr n (selI s) (guard_pimp n s).
+  Proof.
+    intros HW. unfold guard_pimp. destruct (d_pimp s); (split; [exact HW|]); intros HI;
+      (split; [repeat constructor|auto]).
+  Qed.
+
+  Lemma imp_step_sel n nested s src m :
+    (forall t, selW n t -> okr n (selI t) (nested t)) ->
+    selW n s -> okr n (selI s) (imp_step n nested s src m).
+  Proof.
+    intros Hn [Wv Wn]. unfold M_Dba.imp_step.
+    destruct (imp_core_sel n s src m) as (K1 & K2 & K3).
+    assert (W1 : selW n (imp_core n s src m)) by (split; [rewrite K1|rewrite K2]; auto).
+    assert (I1 : selI s -> selI (imp_core n s src m)).
+    { intros HI Hc. rewrite K2. apply HI. auto. }
+    destruct (Nat.eqb _ _).
+    - pose proof (send_ok_sel n _ W1) as H.
+      destruct (send_ok n (imp_core n s src m)) as [[s2 o2] e2].
+      destruct H as ([V2 N2] & C2 & D2 & P2).
+      assert (Wt : selW n (set_mode OkM (clear_view s2))) by (split; simpl; auto).
+      specialize (Hn _ Wt). destruct (nested (set_mode OkM (clear_view s2))) as [[[s3 o3] e3] r3].
+      destruct Hn as [W3 C3]. split; [exact W3|]. intros HI.
+      assert (It : selI (set_mode OkM (clear_view s2))).
+      { unfold selI. simpl. rewrite C2, D2. apply I1. exact HI. }
+      destruct (C3 It) as [P3 I3]. split; [apply Forall_app; split; auto|].
+      destruct r3; auto. destruct I3; auto. right. apply in_app_iff. auto.
+    - split; [exact W1|]. intros HI. split; [constructor|auto].
+  Qed.
+
+  Lemma ok_step_sel n nested s src v :
+    (forall t, selW n t -> okr n (selI t) (nested t)) ->
+    selW n s -> okr n (selI s) (ok_step n nested s src v).
+  Proof.
+    intros Hn HW. unfold M_Dba.ok_step.
+    set (s1 := set_nvals (dict_set Z.eqb src v (d_nvals s)) s).
+    assert (W1 : selW n s1) by (destruct HW; split; simpl; auto).
+    assert (I1 : selI s -> selI s1) by (unfold selI; simpl; auto).
+    destruct (Nat.eqb _ _).
+    - pose proof (do_improve_sel n s1 W1) as H.
+      destruct (do_improve n s1) as [[s2 o2] raised]. destruct H as [W2 I2]. destruct raised.
+      + split; [exact W2|]. intros _. split; [repeat constructor|]. right. now left.
+      + assert (Wt : selW n (set_mode ImpM s2)) by (destruct W2; split; simpl; auto).
+        specialize (Hn _ Wt). destruct (nested (set_mode ImpM s2)) as [[[s3 o3] e3] r3].
+        destruct Hn as [W3 C3]. split; [exact W3|]. intros _.
+        apply C3. unfold selI. simpl. apply I2. reflexivity.
+    - split; [exact W1|]. intros HI. split; [constructor|auto].
+  Qed.
+
+  Lemma go_imp_sel n s : selW n s -> okr n (selI s) (go_imp n s).
+  Proof.
+    intros HW. unfold M_Dba.go_imp.
+    pose proof (replay_sel n (imp_step n (guard_pok n))
+                  (fun s0 src m H0 => imp_step_sel n _ s0 src m (guard_pok_sel n) H0) (d_pimp s) s HW) as H.
+    destruct (replay _ s (d_pimp s)) as [[[s1 o] e] r]. destruct r; [exact H|].
+    destruct H as [[A B] C]. split; [split; simpl; auto|]. intros HI. destruct (C HI) as [P1 I1].
+    split; auto.
+  Qed.
+
+  Lemma go_ok_sel n s : selW n s -> okr n (selI s) (go_ok n s).
+  Proof.
+    intros HW. unfold M_Dba.go_ok.
+    pose proof (replay_sel n (ok_step n (guard_pimp n))
+                  (fun s0 src m H0 => ok_step_sel n _ s0 src m (guard_pimp_sel n) H0) (d_pok s) s HW) as H.
+    destruct (replay _ s (d_pok s)) as [[[s1 o] e] r]. destruct r; [exact H|].
+    destruct H as [[A B] C]. split; [split; simpl; auto|]. intros HI. destruct (C HI) as [P1 I1].
+    split; auto.
+  Qed.
+
+  Lemma dba_recv_sel n s src m : selW n s ->
+    let '(s', o, e) := dba_recv n s src m in
+    selW n s' /\ (selI s -> Forall selPev e /\ (selI s' \/ In (EvRaise n 1) e)).
+  Proof.
+    intros HW.
+    assert (Triv : forall s', d_value s' = d_value s -> d_new s' = d_new s -> d_can s' = d_can s ->
+                   forall e, Forall selPev e ->
+                   selW n s' /\ (selI s -> Forall selPev e /\ (selI s' \/ In (EvRaise n 1) e))).
+    { intros s' A B C e He. destruct HW as [Wv Wn]. split; [split; [rewrite A|rewrite B]; auto|].
+      intros HI. split; [exact He|]. left. unfold selI. rewrite B, C. exact HI. }
+    destruct m as [v|mi me mtc|]; unfold M_Dba.dba_recv; destruct (d_mode s);
+      try (apply Triv; [reflexivity|reflexivity|reflexivity|repeat constructor]).
+    - pose proof (ok_step_sel n (go_imp n) s src v (go_imp_sel n) HW) as H.
+      destruct (ok_step n (go_imp n) s src v) as [[[s' o] e] r]. simpl.
+      destruct H as [W' C]. split; [exact W'|]. intros HI. destruct (C HI) as [P1 I1].
+      split; auto. destruct r; auto.
+    - pose proof (imp_step_sel n (go_ok n) s src (mi, me, mtc) (go_ok_sel n) HW) as H.
+      destruct (imp_step n (go_ok n) s src (mi, me, mtc)) as [[[s' o] e] r]. simpl.
+      destruct H as [W' C]. split; [exact W'|]. intros HI. destruct (C HI) as [P1 I1].
+      split; auto. destruct r; auto.
+  Qed.
+
+  Lemma dba_start_sel n s : selW n s ->
+    let '(s', o, e) := dba_start n s in
+    selW n s' /\ (selI s -> Forall selPev e /\ (selI s' \/ In (EvRaise n 1) e)).
+  Proof.
+    intros HW. unfold M_Dba.dba_start. destruct (pick (d_orc s) (dom n)) as [[v|] o] eqn:Ep.
+    - apply pick_In in Ep.
+      match goal with |- context [go_ok n ?x] =>
+        assert (Wx : selW n x) by (destruct HW; split; simpl; auto; intros w Hw; inversion Hw; subst; auto);
+        assert (Ix : selI s -> selI x) by (unfold selI; simpl; auto);
+        pose proof (go_ok_sel n x Wx) as H; destruct (go_ok n x) as [[[s2 o2] e2] r] end.
+      destruct H as [W2 C]. split; [exact W2|]. intros HI. destruct (C (Ix HI)) as [P1 I1].
+      split; [constructor; [exact Ep|exact P1]|].
+      destruct r; [destruct I1; auto; right; now right|auto].
+    - split; [exact HW|]. intros HI. split; [repeat constructor|auto].
+  Qed.
+End DbaSel.
